@@ -180,3 +180,53 @@ Print Assumptions C14_open_four_bytes_as_iff.
 Theorem C14_open_parse_fuel_suffices : forall b m, open_parse_gen b m <> OutOfFuel.
 Proof. exact open_parse_fuel_ok. Qed.
 Print Assumptions C14_open_parse_fuel_suffices.
+
+(* ===================================================================================== *)
+(** Names in the decoded dictionary (model/YOpenNames.v, spec/RefOpenNames.v, proof/OpenNames.v).
+
+    Open.parse reports the families of an ADD-PATH capability by NAME
+    ({'afi_safi': AFI_SAFI_DICT[(afi, safi)], 'send/receive': ADD_PATH_ACT_DICT[v]}).
+    [afi_safi_dict] / [add_path_act_dict] are the two dictionaries of constants.py as they are in
+    /repo (tied to the live module by the correspondence run: keys AND names);
+    [family_names] / [mode_names] are the reference tables, written down independently of the
+    module under test.  A renamed, dropped or added family breaks the first theorem. *)
+From YV Require Import model.YOpenNames spec.RefOpenNames proof.OpenNames.
+
+Theorem C14_open_names_are_reference :
+  afi_safi_dict = family_names /\ add_path_act_dict = mode_names /\
+  map fst family_names = known_families /\ map fst afi_safi_dict = afi_safi_known /\
+  map fst add_path_act_dict = add_path_act_known /\
+  names_distinctb (map snd family_names) = true /\ names_distinctb (map snd mode_names) = true.
+Proof.
+  exact (conj afi_safi_dict_is_reference (conj add_path_act_dict_is_reference (conj family_names_keys
+        (conj afi_safi_dict_keys (conj add_path_act_dict_keys (conj family_names_distinct mode_names_distinct)))))).
+Qed.
+Print Assumptions C14_open_names_are_reference.
+
+(** For every reference OPEN of [C14_open_decodes_reference] (any capability subset, order,
+    packaging; ADD-PATH for ANY of the known families with any of the three Send/Receive values,
+    any number of entries and of ADD-PATH capabilities): the 'add_path' key is present iff an
+    ADD-PATH capability is, and its value lists, in wire order, for every <AFI, SAFI, Send/Receive>
+    the pair (reference family name, reference mode name) — each of which exists. *)
+Theorem C14_open_addpath_names : forall my_as hold id params,
+  1 <= my_as <= 65535 -> hold <= 65535 -> id <= 4294967295 -> params_wf params ->
+  exists o, open_parse (ref_open_body 4 my_as hold id params) = Ok (o, Some o) /\
+    cd_add_path_named (o_caps o) =
+      (if existsb is_addpath (concat params)
+       then Some (map ref_addpath_name (addpath_entries (concat params))) else None) /\
+    Forall (fun e => ref_addpath_name e <> None) (addpath_entries (concat params)).
+Proof. exact open_addpath_names. Qed.
+Print Assumptions C14_open_addpath_names.
+
+(** the names spelled out in octets: IPv4 flow specification (1, 133) is 'flowspec', mode 3 is
+    'both'; IPv6 flow specification (2, 133) is 'ipv6_flowspec'; an unknown family has no name *)
+Example C14_open_addpath_names_nonvacuous :
+  ref_addpath_name (1, 133, 3) = Some ([102; 108; 111; 119; 115; 112; 101; 99], [98; 111; 116; 104]) /\
+  addpath_entry_names (1, 133, 3) = Some ([102; 108; 111; 119; 115; 112; 101; 99], [98; 111; 116; 104]) /\
+  ref_addpath_name (2, 133, 1) =
+    Some ([105; 112; 118; 54; 95; 102; 108; 111; 119; 115; 112; 101; 99], [114; 101; 99; 101; 105; 118; 101]) /\
+  ref_addpath_name (2, 2, 1) = None /\ ref_addpath_name (1, 1, 4) = None /\
+  cd_add_path_named (snd (decode_caps 65001 [AddPath [(1, 133, 2)]; Mp 1 133; AddPath [(25, 70, 3)]])) =
+    Some [Some ([102; 108; 111; 119; 115; 112; 101; 99], [115; 101; 110; 100]);
+          Some ([101; 118; 112; 110], [98; 111; 116; 104])].
+Proof. repeat split; vm_compute; reflexivity. Qed.
